@@ -440,8 +440,13 @@ def events_for(ab, rng, horizon, adversarial=True):
         else: jit = [rng.randint(0, J) for _ in arr]
         return sorted(a + j for a, j in zip(arr, jit))
     if k == "never": return []
+    if k == "prefix" and ab[1][0] == "prefix_from":
+        # a prefix recorded from a sub-additive source must cover every sequence of that source (C12: dominates everywhere)
+        return events_for(ab[1][1], rng, horizon, adversarial)
     if k in ("curve", "extrap"):
         d = ab[1][1]
+        if ab[1][0] == "fromiter":          # Curve::from_iter takes the running maximum of the given distances
+            d = [max(d[:i + 1]) for i in range(len(d))]
         es = [0]
         while es[-1] < horizon and len(es) < 4000:
             n = len(es)
@@ -496,6 +501,26 @@ class C10(Prop):
             H = rng.choice([rng.randint(1, 40), rng.randint(20, 120)])
             qs.append(["natab", ab, H]); meta.append(("tab", ab, H))
             qs.append(["na", ab, rng.choice([rng.randint(0, 400), rng.randint(100, 3000)]) if not ab_leafs(ab, ("extrap",)) else rng.randint(0, 300)]); meta.append(("na", ab, H))
+            a, b = rng.randint(0, 20), rng.randint(0, 20)
+            qs.append(["natab", ["jitter", b, ["jitter", a, ab]], H]); meta.append(("jj", ab, H, a, b))
+            qs.append(["natab", ["jitter", a + b, ab], H]); meta.append(("j", ab, H, a, b))
+        # arrival models obtained through the other public constructors: Curve::from_iter (running maximum of arbitrary distances)
+        # and ArrivalCurvePrefix::from_arrival_bound_until of a periodic/sporadic source (horizons on and off the source's steps)
+        for _ in range(ctx.scale(80, 800)):
+            if rng.random() < 0.5:
+                v = [rng.choice([0, 0, rng.randint(0, 12)]) for _ in range(rng.randint(1, 6))]
+                if max(v) == 0: v[-1] = rng.randint(1, 9)
+                v[-1] = max(v)
+                ab = ["curve", ["fromiter", v]] if rng.random() < 0.7 else ["extrap", ["fromiter", v]]
+            else:
+                src = gen.gen_sporadic(rng) if rng.random() < 0.6 else ["periodic", rng.randint(1, 30)]
+                T = src[1]; J = src[2] if src[0] == "sporadic" else 0
+                on_step = [k * T - J + 1 for k in range(1, 8) if k * T - J + 1 >= 1]
+                hz = rng.choice(on_step) if on_step and rng.random() < 0.6 else rng.randint(1, 60)
+                ab = ["prefix", ["prefix_from", src, hz]]
+            H = rng.choice([rng.randint(1, 40), rng.randint(20, 120)])
+            qs.append(["natab", ab, H]); meta.append(("tab", ab, H))
+            qs.append(["na", ab, rng.randint(0, 300)]); meta.append(("na", ab, H))
             a, b = rng.randint(0, 20), rng.randint(0, 20)
             qs.append(["natab", ["jitter", b, ["jitter", a, ab]], H]); meta.append(("jj", ab, H, a, b))
             qs.append(["natab", ["jitter", a + b, ab], H]); meta.append(("j", ab, H, a, b))
@@ -1657,6 +1682,8 @@ class C20(Prop):
             qs += families.q_arrival(rng, ["periodic", "sporadic", "never", "curve", "extrap", "propagated", "jitter", "sum", "sum2"], True, True)
             qs += families.q_cost(rng) + families.q_demand(rng) + families.q_supply(rng) + families.q_search(rng)[:1]
             qs += families.q_hist(rng) + families.q_chist(rng)
+        for _ in range(ctx.scale(60, 900)):
+            qs += families.q_curve(rng)        # Curve through every public constructor / extrapolation entry point
         for _ in range(ctx.scale(220, 3000)):
             qs += families.q_ded(rng)
         for _ in range(ctx.scale(200, 3000)):
@@ -2034,12 +2061,12 @@ class C05(Prop):
         rng = ctx.rng
         systems = []
         for _ in range(ctx.scale(90, 1500)):
-            cbs, sb = gen_ros_system(rng)
+            cbs, sb = gen_ros_system(rng, frames=(rng.random() < 0.35))      # a third with (non-increasing) multiframe cost models
             for c in cbs:
                 c["k"] = "timer" if c["kind"] == "timer" else rng.choice(["pu", ["p", c["prio"]]])
             systems.append(dict(cbs=cbs, sb=sb, which=rng.choice(["rr", "bw"]), limit=rng.randint(100, 500), R=[c["cost"] for c in cbs], state="iter"))
         def queries(S):
-            wl = [[r, c["ab"], ["scalar", c["cost"]], c["k"]] for r, c in zip(S["R"], S["cbs"])]
+            wl = [[r, c["ab"], (["multiframe", c["frames"]] if c.get("frames") else ["scalar", c["cost"]]), c["k"]] for r, c in zip(S["R"], S["cbs"])]
             return [[S["which"], S["sb"], wl, [i], S["limit"]] for i in range(len(S["cbs"]))]
         for it in range(14):
             act = [S for S in systems if S["state"] == "iter"]
@@ -2074,10 +2101,16 @@ class C05(Prop):
             if any(x is None for x in bounds): continue
             ctx.dist("analysis", S["which"]); ctx.dist("supply", sb[0])
             H = 400
-            for tr in range(2 if ctx.tier == "quick" else 5):
-                sup = supply_pattern(sb, H + 400, rng, worst=(tr == 0))
+            # below the model's value (which is proved safe): search much harder for a run that exceeds the bound
+            suspicious = any(rows[b + i][3] and rows[b + i][3][0] == "ok" and rows[b + i][1][1] < rows[b + i][3][1] for i in range(n))
+            for tr in range(60 if suspicious else 2 if ctx.tier == "quick" else 5):
+                sup = supply_pattern(sb, H + 400, rng, worst=(tr == 0 or (suspicious and tr % 2 == 0)))
                 tgt = rng.randrange(len(cbs)); dly = 0 if tr == 0 else rng.randint(0, 12)
                 rel = ros_releases(cbs, rng, H, tgt, dly)
+                if suspicious and tr >= 2:          # every callback with its own release offset
+                    rel = []
+                    for ci, c in enumerate(cbs):
+                        for a_ in dense_arrivals(c["ab"], rng, H, True, rng.randint(0, 12)): rel.append((a_, ci))
                 worst = [0] * len(cbs)
                 for (cb, a, fin, src) in sim.executor(cbs, {}, rel, sup, H + 400):
                     if a < H: worst[cb] = max(worst[cb], fin - a)
